@@ -87,7 +87,7 @@ def run_query(world, text, params, page):
         return 'emu', (e.kind, e.detail)
     except Exception as e:
         name = type(e).__name__
-        if name in REJECT:
+        if name in REJECT or isinstance(e, (TypeError, NotImplementedError)):
             return 'rejected', name
         inner = e
         for _ in range(4):          # pony may wrap the driver's exception
@@ -228,6 +228,19 @@ def check_case(ctx, case):
         ctx.inconclusive += 1
         classes.append('unspecified_rows')
     else:
+        misjudged = set()         # dialects whose rows fell under an open known finding
+        if page is None and classes[0] == 'kind:plain' and c01.judge(q, rows_sqlite, required, optional):
+            # a query of C01's own vocabulary whose SQLite answer already differs from the reference: that is C01's subject
+            # (dialect independent); here only the agreement of the dialects with SQLite is checked
+            classes.append('c01_domain:sqlite_differs_from_reference')
+            ctx.count('c01_domain:' + text[:80])
+            for d in DIALECTS:
+                if d in results and collections.Counter(results[d]) != collections.Counter(rows_sqlite):
+                    ctx.fail(dict(fail_case, dialect=d, kind='rows'),
+                             '%s: query  %s  returns %r on SQLite but %r on %s\n%s'
+                             % (d, desc, rows_sqlite[:8], results[d][:8], d, sent.get(d)))
+            results = {}
+            misjudged.add('sqlite')
         for d, rows in results.items():
             if page is not None:
                 msg = None
@@ -238,12 +251,13 @@ def check_case(ctx, case):
             else:
                 msg = c01.judge(q, rows, required, optional)
             if msg:
+                misjudged.add(d)
                 ctx.fail(dict(fail_case, dialect=d, kind='rows'),
                          '%s: query  %s: %s\n  sqlite returned %r\n  %s returned %r\n  reference %r (optional %r)\n%s'
                          % (d, desc, msg, rows_sqlite[:8], d, rows[:8], required[:8], optional[:4], sent.get(d, sqlite_sql)))
         if page is not None or pinned(q, optional):
             for d in DIALECTS:
-                if d in results:
+                if d in results and d not in misjudged and 'sqlite' not in misjudged:
                     same = (results[d] == rows_sqlite) if page is not None else \
                         (collections.Counter(results[d]) == collections.Counter(rows_sqlite))
                     if not same:
@@ -418,7 +432,28 @@ def _oracle_limit_zero_returns_everything(case, message):
     return case.get('dialect') == 'oracle' and (case.get('page') or {}).get('limit') == 0
 
 
+def _pg_negative_substring_length(case, message):
+    """shared root cause with C25-pg-negative-substring-length: constant slice bounds of equal sign with stop < start"""
+    return case.get('dialect') == 'postgres' and 'negative substring length' in message and any(
+        n and n[0] == 'slice' and n[2] is not None and n[3] is not None and n[3] < n[2] and (n[2] >= 0) == (n[3] >= 0)
+        for n in _nodes(case))
+
+
+def _mysql_generic_negative_start_slice(case, message):
+    """shared root cause with C25-generic-negative-start-*: the generic path hands a negative slice start to substr() as is"""
+    return case.get('dialect') == 'mysql' and any(n and n[0] == 'slice' and n[2] is not None and n[2] < 0 for n in _nodes(case))
+
+
+def _sqlite_tuple_le_ge_expansion(case, message):
+    """SQLite (no row values): (a, b) <= (c, d) is expanded to a <= c OR a = c AND b <= d: the non-last positions must compare
+    strictly (CmpMonad.getsql)"""
+    return case.get('dialect') == 'sqlite' and any(n and n[0] == 'tcmp' and n[1] in ('<=', '>=') for n in _nodes(case))
+
+
 EXCLUSIONS = {
+    'pg_negative_substring_length': _pg_negative_substring_length,
+    'mysql_generic_negative_start_slice': _mysql_generic_negative_start_slice,
+    'sqlite_tuple_le_ge_expansion': _sqlite_tuple_le_ge_expansion,
     'pg_not_of_nullable_bool_expression': _pg_not_of_nullable_bool_expression,
     'mysql_strip_chars_is_one_string': _mysql_strip_chars_is_one_string,
     'mysql_floordiv_is_decimal_division': _mysql_floordiv_is_decimal_division,
